@@ -21,6 +21,7 @@ DOC = {
         'C03.R5': 'hashing task: send only on Some(hash), for every remaining file of the inode group; a path that cannot be hashed is dropped alone and the next path of the inode is tried; when none can be hashed only that inode group is dropped',
         'C03.R6': 'deduplicate: repeated entries collapsed with unique_by(path hash) (global), never an adjacent-only dedup; entries bucketed by location are all re-emitted',
         'C03.R7': 'a FileInfo field changed by the hash function and used in the group key is propagated to every path of the inode (re-evaluates C01.R6)',
+        'C03.R14': 'what the late examination of a passed group finds out is joined with what is known about the files of the same length and hash: the groups that the recursive regrouping returns are merged into the hashed groups by (file_len, file_hash), not appended as groups of their own',
         'C03.R13': 'duplicates are not missed because a hard link lent them the transform output of another path (re-evaluates C01.R14)',
         'C03.R12': 'a duplicate pair is not dropped by the replication filter because its two files are mistaken for one: file identity is the whole FileId wherever it is used (re-evaluates C01.R11)',
         'C03.R11': 'a readable file is never dropped silently by the transform stage: the only error passed over without a warning is NotFound for a file that is really gone (re-evaluates C15.R5)',
@@ -48,6 +49,7 @@ def run(ctx):
     reevaluate(ctx, 'C03.R11', c15.r5, ctx.lib)
     reevaluate(ctx, 'C03.R12', c01.r11)
     reevaluate(ctx, 'C03.R13', c01.r14)
+    r14(ctx)
     from .common import run_mandatory
     run_mandatory(ctx, 'C03')
 
@@ -302,3 +304,37 @@ def r78(ctx):
     if not uq:
         ctx.note('C03.R9', ctx.lib.body('group::deduplicate').where() if ctx.lib.body('group::deduplicate') else '', 'deduplicate does not key by Path::hash128 any more; R6 decides the key')
     delimited_identity_hash(ctx, 'C03.R9', 'path::Path::hash128')
+
+
+def r14(ctx):
+    rule = 'C03.R14'
+    lib = ctx.lib
+    core = rehash_core(lib)
+    if core is None:
+        ctx.missing(rule, 'group::rehash')
+        return
+    rec = [c for c in core.calls(rehash_rx(lib)) if c.path == core.path]
+    if not rec:
+        ctx.ok(rule, core.path + '|examined-groups-rejoin', core.where(), 'no group is regrouped apart from the others (no recursive regrouping)')
+        return
+    fl = forward_locals(core, rec[0].dest[0]) | {rec[0].dest[0]}
+    chained = [c for c in core.calls(r'Iterator::chain$|::chain$') if any(op_local(a) in fl for a in c.args)]
+    # the merge: a comparison of file_len and file_hash of two groups, in the core or in a closure of it
+    cmp_ok = False
+    for x in [core] + [lib.body(cp) for cp in lib.closures_of(core.path, recursive=False)]:
+        names = set()
+        for c in x.calls(r'PartialEq.*>::(eq|ne)$|PartialEq::(eq|ne)$'):
+            for a in c.args:
+                names |= set(backslice(x, [a]).field_names())
+        for blk in x.blocks:
+            for st in blk['stmts']:
+                if st['rv']['k'] == 'bin' and st['rv']['op'] in ('Eq', 'Ne'):
+                    for o in (st['rv']['a'], st['rv']['b']):
+                        names |= set(backslice(x, [o]).field_names())
+        if {'file_len', 'file_hash'} <= names:
+            cmp_ok = True
+    ctx.check(cmp_ok and not chained, rule, core.path + '|examined-groups-rejoin', (chained[0].where() if chained else rec[0].where()),
+              'the groups returned by the late examination are merged into the hashed groups of the same (file_len, file_hash)',
+              'the groups that the late examination of a passed (single-inode) group returns are appended to the result as groups of their own: a path that was replaced during the run by a copy of a '
+              'file of ANOTHER group gets the right hash but stays alone, and the singleton is dropped by the post-filter - t/b, identical to t/x and t/y when the report is written, is missing '
+              '(with --unique it would be reported as unique)')
